@@ -24,6 +24,9 @@ func init() {
 
 func runC13(p *eng.Prog, r *eng.Report, tier string) {
 	c := &cx{p, r, tier}
+	// ---- C13.10 encoders emit field values verbatim --------------------------------
+	nLossy := lossyEmission(c, "C13.10", func(f *eng.Fn) bool { return strings.HasPrefix(f.Short, "stanza.") })
+	c.r.Floor("C13.10", "emitted texts in the stanza encoders", nLossy, 8)
 	// ---- C13.1 reply helpers -------------------------------------------------------
 	for _, k := range []struct{ fn, typ, wrap string }{
 		{"IQ.Result", "stanza.ResultIQ", "stanza.IQ.Wrap[recv](p0)"},
